@@ -1,6 +1,20 @@
-(* Runner for property C13: wire arguments -> model -> wire result. Filled in by the C13 model. *)
-From Coq Require Import ZArith List String Bool.
-From Verif Require Import Base.Wire.
+(* Runner for property C13: wire arguments -> TaxId model -> wire result.
+     c13 check    x<CC> x<raw code>  ->  x<country'> x<code'> <accepted 0/1> x<code''>
+         (Identity.Normalize, Identity.Validate, Identity.Normalize again)
+     c13 validate x<CC> x<code>      ->  <accepted 0/1>          (Identity.Validate only)
+   Same operation names as harness/c13.go. *)
+From Coq Require Import String ZArith List Bool.
+From Verif Require Import Base.Wire TaxId.Common TaxId.Regimes.
 Import ListNotations.
 
-Definition run_c13 (args : list V) : list V := [verr "not-implemented"].
+Definition run_c13 (args : list V) : list V :=
+  match args with
+  | o :: cc :: code :: _ =>
+    let op := opname o in
+    if String.eqb op "check" then
+      let '((cc1, c1), ok, c2) := check (vs_ cc) (vs_ code) in
+      [VS cc1; VS c1; VB ok; VS c2]
+    else if String.eqb op "validate" then [VB (validate (vs_ cc) (vs_ code))]
+    else [verr "unknown-c13-op"]
+  | _ => [verr "unknown-c13-op"]
+  end.
